@@ -110,7 +110,19 @@ def check(env, rep, tier):
                 rep.ob("C12.2", "derived|" + tr, len(ims) == 1 and ims[0]["derived"],
                        "%s for RequestCacheKey is not the derived (all-fields) implementation" % tr)
         # ---- C12.3 no stale correlation
-        pcl = find_body(prog, "block_handler::BlockHandler::<Endpoint>::packet_clone_limited")
+        import blockutil
+        pcl = None
+        serve = blockutil.fns_calling(prog, "core::slice::<impl [T]>::chunks")
+        for sv in serve:
+            for bb in sv["blocks"]:
+                t = bb["term"]
+                if t["k"] == "call" and not bb["cleanup"]:
+                    r = t.get("resolved") or {}
+                    if r.get("local") and r.get("id") in prog.bodies:
+                        cb = prog.bodies[r["id"]]
+                        tys = [prog.types[cb["locals"][i + 1]["ty"]]["s"] for i in range(cb["arg_count"])]
+                        if tys == ["&mut packet::Packet", "&packet::Packet"]:
+                            pcl = cb
         if pcl is None:
             # anchored by behaviour instead of name: the function called from the serve path with (&mut Packet, &Packet)
             rep.missing("C12.3", "the function copying the cached reply into the live reply (packet_clone_limited)")
